@@ -315,4 +315,222 @@ theorem implode_explodeChunks : ∀ (n : Nat) (bs : Bytes), bs.length ≤ n →
 theorem implode_explode_all (s : Bytes) : implode (explode s) = some s :=
   implode_explodeChunks s.length s (Nat.le_refl _)
 
+/-! ## ROUND 2: truncation / stability of the chunking (`decode1` looks at most one byte past a
+   character, and only to see that it is absent or does not continue the sequence) -/
+
+theorem decode1_snd_pos (b : UInt8) (r : Bytes) : 1 ≤ (Utf8.decode1 (b :: r)).2 := by
+  simp only [Utf8.decode1]
+  split
+  · simp
+  · split <;> (try split) <;> simp
+  · split <;> (try split) <;> (try split) <;> (try split) <;> (try split) <;> simp
+  · split <;> (try split) <;> (try split) <;> (try split) <;> (try split) <;> (try split) <;> (try split) <;> simp
+  · simp
+
+/-- TRUNCATION: cutting the input anywhere at or after the end of the first character does not
+change what `decode1` returns (it looks at most one byte past the character, and only to see
+that the byte is absent or does not continue the sequence) -/
+theorem decode1_take (bs : Bytes) (m : Nat) (h : (Utf8.decode1 bs).2 ≤ m) :
+    Utf8.decode1 (bs.take m) = Utf8.decode1 bs := by
+  cases bs with
+  | nil => simp
+  | cons b0 rest =>
+    cases m with
+    | zero => have := decode1_snd_pos b0 rest; omega
+    | succ m =>
+      simp only [List.take_succ_cons]
+      rcases seqLen_cases b0.toNat with ⟨hs, _⟩ | ⟨hs, _⟩ | ⟨hs, _⟩ | ⟨hs, _⟩ | hs
+      · simp only [Utf8.decode1, hs]
+      · simp only [Utf8.decode1, hs] at h ⊢
+        cases rest with
+        | nil => simp
+        | cons b1 r1 =>
+          cases m with
+          | zero =>
+            simp only at h
+            split at h
+            · simp at h
+            · rename_i hc; simp [hc]
+          | succ m => simp
+      · simp only [Utf8.decode1, hs] at h ⊢
+        generalize Utf8.secondRange b0.toNat = sr at h ⊢
+        obtain ⟨lo, hi⟩ := sr
+        simp only at h ⊢
+        cases rest with
+        | nil => simp
+        | cons b1 r1 =>
+          cases m with
+          | zero =>
+            simp only at h
+            split at h
+            · split at h <;> (try split at h) <;> simp at h
+            · rename_i hc; simp [hc]
+          | succ m =>
+            simp only [List.take_succ_cons]
+            cases r1 with
+            | nil => simp
+            | cons b2 r2 =>
+              cases m with
+              | zero =>
+                simp only at h
+                split at h
+                · rename_i hc
+                  split at h
+                  · simp at h
+                  · rename_i hc2; simp [hc, hc2]
+                · rename_i hc; simp [hc]
+              | succ m => simp
+      · simp only [Utf8.decode1, hs] at h ⊢
+        generalize Utf8.secondRange b0.toNat = sr at h ⊢
+        obtain ⟨lo, hi⟩ := sr
+        simp only at h ⊢
+        cases rest with
+        | nil => simp
+        | cons b1 r1 =>
+          cases m with
+          | zero =>
+            simp only at h
+            split at h
+            · split at h <;> (try split at h) <;> (try split at h) <;> (try split at h) <;> simp at h
+            · rename_i hc; simp [hc]
+          | succ m =>
+            simp only [List.take_succ_cons]
+            cases r1 with
+            | nil => simp
+            | cons b2 r2 =>
+              cases m with
+              | zero =>
+                simp only at h
+                split at h
+                · rename_i hc
+                  split at h
+                  · split at h <;> (try split at h) <;> simp at h
+                  · rename_i hc2; simp [hc, hc2]
+                · rename_i hc; simp [hc]
+              | succ m =>
+                simp only [List.take_succ_cons]
+                cases r2 with
+                | nil => simp
+                | cons b3 r3 =>
+                  cases m with
+                  | zero =>
+                    simp only at h
+                    split at h
+                    · rename_i hc
+                      split at h
+                      · rename_i hc2
+                        split at h
+                        · simp at h
+                        · rename_i hc3; simp [hc, hc2, hc3]
+                      · rename_i hc2; simp [hc, hc2]
+                    · rename_i hc; simp [hc]
+                  | succ m => simp
+      · simp only [Utf8.decode1, hs]
+
+
+theorem decode1_snd_le (bs : Bytes) : (Utf8.decode1 bs).2 ≤ bs.length := by
+  cases bs with
+  | nil => simp [Utf8.decode1]
+  | cons b0 rest =>
+    simp only [Utf8.decode1]
+    split
+    · simp
+    · split <;> (try split) <;> simp
+    · split <;> (try split) <;> (try split) <;> (try split) <;> (try split) <;> simp
+    · split <;> (try split) <;> (try split) <;> (try split) <;> (try split) <;> (try split) <;> (try split) <;> simp
+    · simp
+
+/-! ## fuel independence; unfolding `chunks` -/
+
+theorem chunksF_fuel : ∀ (n m : Nat) (bs : Bytes), bs.length ≤ n → bs.length ≤ m →
+    Utf8.chunksF n bs = Utf8.chunksF m bs := by
+  intro n
+  induction n with
+  | zero =>
+    intro m bs h _
+    have : bs = [] := List.eq_nil_of_length_eq_zero (by omega)
+    subst this; rw [chunksF_nil, chunksF_nil]
+  | succ n ih =>
+    intro m bs h hm
+    cases bs with
+    | nil => rw [chunksF_nil, chunksF_nil]
+    | cons b r =>
+      cases m with
+      | zero => simp at hm
+      | succ m =>
+        rw [chunksF_cons, chunksF_cons]
+        have hk : 1 ≤ (if (Utf8.decode1 (b :: r)).2 == 0 then 1 else (Utf8.decode1 (b :: r)).2) := by
+          split
+          · omega
+          · rename_i h0; simp only [beq_iff_eq] at h0; omega
+        rw [ih m _ (by simp only [List.length_drop, List.length_cons] at *; omega)
+          (by simp only [List.length_drop, List.length_cons] at *; omega)]
+
+theorem chunksF_eq_chunks (n : Nat) (bs : Bytes) (h : bs.length ≤ n) : Utf8.chunksF n bs = Utf8.chunks bs :=
+  chunksF_fuel n bs.length bs h (Nat.le_refl _)
+
+theorem chunks_nil : Utf8.chunks [] = [] := rfl
+
+theorem chunks_cons (b : UInt8) (r : Bytes) :
+    Utf8.chunks (b :: r) = ((Utf8.decode1 (b :: r)).1, (b :: r).take (Utf8.decode1 (b :: r)).2)
+      :: Utf8.chunks ((b :: r).drop (Utf8.decode1 (b :: r)).2) := by
+  have hp := decode1_snd_pos b r
+  have h0 : ((Utf8.decode1 (b :: r)).2 == 0) = false := by simp; omega
+  show Utf8.chunksF (r.length + 1) (b :: r) = _
+  rw [chunksF_cons]
+  simp only [h0, Bool.false_eq_true, if_false]
+  rw [chunksF_eq_chunks]
+  simp only [List.length_drop, List.length_cons]; omega
+
+/-- total byte length of the first `j` chunks -/
+def chunkPre (cs : List (Option Nat × Bytes)) (j : Nat) : Nat := ((cs.take j).map (·.2)).flatten.length
+
+theorem chunkPre_zero (cs : List (Option Nat × Bytes)) : chunkPre cs 0 = 0 := by simp [chunkPre]
+
+theorem chunkPre_cons_succ (c : Option Nat × Bytes) (cs : List (Option Nat × Bytes)) (j : Nat) :
+    chunkPre (c :: cs) (j + 1) = c.2.length + chunkPre cs j := by
+  simp [chunkPre]
+
+/-- STABILITY (1): the chunks of a string cut at a chunk boundary are the chunks before the cut;
+    (2): the chunks of the rest are the chunks after the cut -/
+theorem chunks_take_drop : ∀ (n : Nat) (bs : Bytes), bs.length ≤ n → ∀ j : Nat,
+    Utf8.chunks (bs.take (chunkPre (Utf8.chunks bs) j)) = (Utf8.chunks bs).take j ∧
+    Utf8.chunks (bs.drop (chunkPre (Utf8.chunks bs) j)) = (Utf8.chunks bs).drop j := by
+  intro n
+  induction n with
+  | zero =>
+    intro bs h j
+    have : bs = [] := List.eq_nil_of_length_eq_zero (by omega)
+    subst this; simp [chunks_nil]
+  | succ n ih =>
+    intro bs h j
+    cases bs with
+    | nil => simp [chunks_nil]
+    | cons b r =>
+      cases j with
+      | zero => simp [chunkPre_zero, chunks_nil]
+      | succ j =>
+        have hp := decode1_snd_pos b r
+        have hle := decode1_snd_le (b :: r)
+        rw [chunks_cons b r, chunkPre_cons_succ]
+        generalize hd : Utf8.decode1 (b :: r) = d at hp hle
+        obtain ⟨c, k⟩ := d
+        simp only at hp hle ⊢
+        have hlen : ((b :: r).take k).length = k := by rw [List.length_take]; omega
+        rw [hlen]
+        obtain ⟨ih1, ih2⟩ := ih ((b :: r).drop k) (by simp only [List.length_drop, List.length_cons] at *; omega) j
+        generalize hm : chunkPre (Utf8.chunks ((b :: r).drop k)) j = m at ih1 ih2
+        constructor
+        · -- the cut string is non-empty and starts with the same character
+          have hne : (b :: r).take (k + m) = b :: r.take (k + m - 1) := by
+            have : k + m = (k + m - 1) + 1 := by omega
+            rw [this, List.take_succ_cons]; simp
+          have hdec : Utf8.decode1 ((b :: r).take (k + m)) = (c, k) := by
+            rw [decode1_take _ _ (by rw [hd]; simp), hd]
+          rw [hne, chunks_cons, ← hne, hdec]
+          simp only [List.take_succ_cons]
+          rw [List.take_take, Nat.min_eq_left (by omega), List.drop_take, Nat.add_sub_cancel_left, ih1]
+        · rw [← List.drop_drop, ih2]
+          simp
+
 end Jaq.C13
